@@ -25,7 +25,8 @@ import (
 
 type c22In struct {
 	Cfg    uint32 `json:"cfg"`  // lattice mask, bit i = field i of vgirpc.VerifC22Toggles
-	Auth   string `json:"auth"` // authenticator behaviour
+	Auth   string `json:"auth"` // authenticator behaviour: the error component (or an accepting mode)
+	Ctx    string `json:"ctx"`  // context returned TOGETHER WITH the error: nil | alice | introspector
 	Method string `json:"method"`
 	Path   string `json:"path"`  // raw (escaped) request path
 	CType  string `json:"ctype"` // arrow | json | form | none
@@ -42,6 +43,24 @@ var c22Rejecting = c22Auths[3:]
 func c22Passing(a string) bool { return a == "none" || a == "ok" || a == "introspector" }
 
 var c22Alice = &vgirpc.AuthContext{Domain: "verif", Authenticated: true, Principal: "alice"}
+
+var c22Ctxs = []string{"nil", "alice", "introspector"}
+var c22CtxCoq = map[string]string{"nil": "C22.CX_nil", "alice": "C22.CX_alice", "introspector": "C22.CX_introspector", "": "C22.CX_nil"}
+
+// c22AuthScript is the scripted AuthenticateFunc: for an error mode it returns
+// the error AND the context component ctx (nil or not).
+func c22AuthScript(mode, ctx string) (*vgirpc.AuthContext, error) {
+	ac, err := c22AuthResult(mode)
+	if err != nil {
+		switch ctx {
+		case "alice":
+			ac = c22Alice
+		case "introspector":
+			ac = &vgirpc.AuthContext{Domain: "verif", Authenticated: true, Principal: vgirpc.VerifC22IntrospectorPrincipal}
+		}
+	}
+	return ac, err
+}
 
 func c22AuthResult(mode string) (*vgirpc.AuthContext, error) {
 	switch mode {
@@ -284,8 +303,11 @@ func c22Confuse(r *rand.Rand, q c22In, cfg uint32) c22In {
 
 func c22Gen(r *rand.Rand, n int, tier string) []c22In {
 	var out []c22In
-	add := func(cfg uint32, auth string, q c22In) {
-		q.Cfg, q.Auth = cfg, auth
+	addc := func(cfg uint32, auth, ctx string, q c22In) {
+		q.Cfg, q.Auth, q.Ctx = cfg, auth, ctx
+		if c22Passing(auth) || auth == "nilnil" {
+			q.Ctx = "nil" // no error: there is no "context returned with the error"
+		}
 		if !strings.HasPrefix(q.Path, "/") {
 			q.Path = "/" + q.Path
 		}
@@ -294,7 +316,55 @@ func c22Gen(r *rand.Rand, n int, tier string) []c22In {
 		}
 		out = append(out, q)
 	}
+	add := func(cfg uint32, auth string, q c22In) { addc(cfg, auth, "nil", q) }
 	noPfx := c22AllOn &^ 1
+	noPk := c22AllOn &^ (1 << 5) // PKCE wraps the callback in ChainAuthenticate, which drops a context returned with an error
+	errs := c22Rejecting[:len(c22Rejecting)-1]
+	// 0. rejection SHAPES, boundary cases first: every error class returned together
+	//    with a NON-NIL context (identified but refused) on every gated route,
+	//    with and without prefix; (nil, err) for the same routes is stage 2
+	ctxFor := func(q c22In) string {
+		if strings.Contains(q.Path, vgirpc.IntrospectEndpoint) {
+			return "introspector"
+		}
+		return "alice"
+	}
+	for _, e := range errs {
+		for _, q := range c22Nominal(c22Pfx(noPk))[:12] {
+			q.Note = "ctx-with-error"
+			addc(noPk, e, ctxFor(q), q)
+		}
+	}
+	for _, e := range errs {
+		ns := c22Nominal("")
+		for _, k := range []int{0, 2, 3, 6, 9, 10} { // unary, describe, stream init, exchange, upload-url, introspection
+			q := ns[k]
+			q.Note = "ctx-with-error"
+			addc(noPk&^1, e, ctxFor(q), q)
+		}
+	}
+	for _, cfg := range []uint32{noPk, noPk &^ 1, c22AllOn} {
+		ns := c22Nominal(c22Pfx(cfg))
+		for _, e := range []string{"fail", "unavail"} {
+			q := ns[0]
+			q.Note = "ctx-with-error"
+			addc(cfg, e, "introspector", q)
+			q = ns[10]
+			q.Note = "ctx-with-error"
+			addc(cfg, e, "alice", q)
+		}
+		for _, q := range ns {
+			if q.Method == "DELETE" && (q.Sess == "alice" || q.Sess == "anon") {
+				q.Note = "ctx-with-error"
+				addc(cfg, "fail", "alice", q)
+			}
+		}
+	}
+	// RPC / control paths at the ROOT of a server mounted under a prefix: no alias may exist
+	for _, q := range c22Nominal("")[:12] {
+		q.Note = "root-under-prefix"
+		addc(noPk, "fail", ctxFor(q), q)
+	}
 	// 1. every route kind, everything enabled, rejected by AuthFailure; with and without prefix
 	for _, cfg := range []uint32{c22AllOn, noPfx} {
 		for _, q := range c22Nominal(c22Pfx(cfg)) {
@@ -318,8 +388,8 @@ func c22Gen(r *rand.Rand, n int, tier string) []c22In {
 		add(c22AllOn, "ok", q)
 	}
 	// 4. RPC requests through the wrong route: rejected, then accepted
-	for _, q := range c22Cross(c22Pfx(c22AllOn)) {
-		add(c22AllOn, "fail", q)
+	for i, q := range c22Cross(c22Pfx(c22AllOn)) {
+		addc([]uint32{c22AllOn, noPk}[i%2], "fail", c22Ctxs[i%3], q)
 	}
 	for _, q := range c22Cross("") {
 		add(noPfx, "introspector", q)
@@ -337,6 +407,10 @@ func c22Gen(r *rand.Rand, n int, tier string) []c22In {
 		if r.Intn(10) < 3 {
 			a = c22Auths[r.Intn(3)]
 		}
+		ctx := "nil"
+		if r.Intn(2) == 0 {
+			ctx = c22Ctxs[1+r.Intn(2)]
+		}
 		p := c22Pfx(cfg)
 		var q c22In
 		if r.Intn(3) == 0 {
@@ -352,7 +426,7 @@ func c22Gen(r *rand.Rand, n int, tier string) []c22In {
 				q = c22Confuse(r, q, cfg)
 			}
 		}
-		add(cfg, a, q)
+		addc(cfg, a, ctx, q)
 	}
 	return out
 }
@@ -415,7 +489,7 @@ func c22Run(in c22In) CaseOut {
 	if in.Auth != "none" {
 		auth = func(*http.Request) (*vgirpc.AuthContext, error) {
 			atomic.AddInt64(&cnt.auth, 1)
-			return c22AuthResult(mode)
+			return c22AuthScript(mode, in.Ctx)
 		}
 	}
 	resolver := func(string) (vgirpc.TokenIdentity, bool, error) {
@@ -543,8 +617,9 @@ func c22Run(in c22In) CaseOut {
 	got[5] = cnt.rehydrate > 0
 	got[6] = cnt.resolver > 0
 	got[7] = cnt.provider > 0
-	if status == 200 && strings.HasPrefix(rec.Header().Get("Content-Type"), "application/vnd.apache.arrow") {
-		for _, st := range ParseStreams(rec.Body.Bytes()) {
+	// the describe batch anywhere in the body (also after a rejection document)
+	if at := strings.Index(rec.Body.String(), "\xff\xff\xff\xff"); at >= 0 {
+		for _, st := range ParseStreams(rec.Body.Bytes()[at:]) {
 			if strings.HasPrefix(st.Schema, "name:utf8,method_type:utf8") {
 				got[8] = true
 			}
@@ -561,11 +636,17 @@ func c22Run(in c22In) CaseOut {
 	}
 	consulted := cnt.auth > 0
 
-	coqIn := App("C22.Probe", App("C22.cfgm", N(uint64(in.Cfg))), "C22.A_"+in.Auth,
+	coqIn := App("C22.Probe", App("C22.cfgm", N(uint64(in.Cfg))), "C22.A_"+in.Auth, c22CtxCoq[in.Ctx],
 		App("C22.Build_request", c22MethCoq[in.Method], B(in.Path), c22CtCoq[in.CType], c22BodyCoq(in.Body), c22SessCoq[in.Sess], Bool(in.Html)))
-	coqObs := App("C22.Build_obs", N(uint64(status)), List(work), Bool(consulted), c22PatCoq(pat))
+	bk := vgirpc.VerifC22BodyKind(rec.Body.Bytes())
+	bkCoq := map[string]string{"empty": "C22.BK_empty", "rej401": "C22.BK_rej401", "rej503": "C22.BK_rej503",
+		"rej500": "C22.BK_rej500", "wall401": "C22.BK_other", "other": "C22.BK_other"}[bk]
+	coqObs := App("C22.Build_obs", N(uint64(status)), List(work), Bool(consulted), c22PatCoq(pat), "(Some "+bkCoq+")")
 
-	tags := []string{"auth-" + in.Auth, "status-" + itoa(status), "mux-" + kind, "method-" + in.Method}
+	if in.Ctx == "" {
+		in.Ctx = "nil"
+	}
+	tags := []string{"auth-" + in.Auth, "ctx-" + in.Ctx, "body-" + bk, "status-" + itoa(status), "mux-" + kind, "method-" + in.Method}
 	if in.Note != "" {
 		tags = append(tags, "confusion-"+in.Note)
 	} else {
@@ -590,10 +671,10 @@ func c22Run(in c22In) CaseOut {
 	// control in which some counter moved
 	nontrivial := (rej && in.Method != "OPTIONS") || (!rej && len(work) > 0)
 	return CaseOut{Coq: Pair(coqIn, coqObs), Tags: c20Dedup(tags), Nontrivial: nontrivial,
-		Obs: map[string]any{"status": status, "work": workNames, "consulted": consulted, "pattern": pat, "mux": kind}}
+		Obs: map[string]any{"status": status, "work": workNames, "consulted": consulted, "pattern": pat, "mux": kind, "body": bk}}
 }
 
 func init() {
-	Register("C22", "real HttpServer at generated points of the 11-toggle feature lattice (prefix, 3 pages, sticky, PKCE, custom routes, upload provider, introspection, OAuth metadata, CORS) x 12 authenticator behaviours (9 rejecting: AuthFailure, wrapped AuthFailure, ValueError, wrapped ValueError, PermissionError, AuthUnavailable, wrapped, plain error, (nil,nil); 3 accepting as positive control) x one probe: every route kind nominal, RPC requests through the wrong route, and method/path confusions (method swap, trailing/double slash, dot segments, case, %2F, %XX, prefix, content type, body, extra segment); counters on every handler / stream state / rehydrate / resolver / provider / hook / session close / custom handler / body read; non-trivial = rejected non-preflight request, or accepted request that moved a counter; distinct = distinct input JSON",
+	Register("C22", "real HttpServer at generated points of the 11-toggle feature lattice (prefix, 3 pages, sticky, PKCE, custom routes, upload provider, introspection, OAuth metadata, CORS) x authenticator scripts (error component x context component returned WITH the error: nil / alice / introspector; 12 behaviours, 9 rejecting: AuthFailure, wrapped AuthFailure, ValueError, wrapped ValueError, PermissionError, AuthUnavailable, wrapped, plain error, (nil,nil); 3 accepting as positive control) x one probe: every route kind nominal, RPC requests through the wrong route, and method/path confusions (method swap, trailing/double slash, dot segments, case, %2F, %XX, prefix, content type, body, extra segment); counters on every handler / stream state / rehydrate / resolver / provider / hook / session close / custom handler / body read; non-trivial = rejected non-preflight request, or accepted request that moved a counter; distinct = distinct input JSON",
 		c22Gen, c22Run)
 }
